@@ -126,11 +126,19 @@ def run_perm(rng, obs):
     steps = rng.randint(3, 8)
     raw = K.make_cost(cfg['cost'])
     use_random_init = cfg['solver'] in ('de', 'de2')
+    # the initial population drawn from a user-supplied mystic Distribution (built when the Set* call is made, i.e. after seeding)
+    sampled = rng.choice([None, None, 'normal', 'uniform', 'default']) if use_random_init else None
+    def sampled_init(s):
+        from mystic.math import Distribution
+        mid = [0.5 * (l + h) for l, h in zip(box['lo'], box['hi'])]
+        if sampled == 'default': return s.SetSampledInitialPoints()
+        d = Distribution('numpy.random.normal', mid[0], 1.0) if sampled == 'normal' else Distribution('numpy.random.uniform', min(box['lo']), max(box['hi']))
+        return s.SetSampledInitialPoints(d)
     names = ['init', 'ranges', 'constraints', 'penalty', 'limits', 'termination', 'stepmon', 'evalmon', 'objective']
     def configure(order, probe):
         s = K.new_solver(cfg)
         acts = {
-            'init': lambda: (s.SetRandomInitialPoints(list(box['lo']), list(box['hi'])) if use_random_init else s.SetInitialPoints(list(cfg['x0']))),
+            'init': lambda: (sampled_init(s) if sampled else s.SetRandomInitialPoints(list(box['lo']), list(box['hi'])) if use_random_init else s.SetInitialPoints(list(cfg['x0']))),
             'ranges': lambda: s.SetStrictRanges(list(box['lo']), list(box['hi']), **({} if tight is None else {'tight': tight})),
             'constraints': lambda: s.SetConstraints(K.make_constraint(cons) if cons else None),
             'penalty': lambda: s.SetPenalty(K.make_penalty(pen) if pen else None),
@@ -166,7 +174,8 @@ def run_perm(rng, obs):
                 s.Step(**kw); out.append(traj_state(s))
         return out, [c[0] for c in probe.calls]
     base, base_calls = run(names, mid_names if mid else None)
-    obs.desc = dict(cfg, box=[box['lo'], box['hi']], tight=tight, cons=cons, pen=pen, steps=steps)
+    obs.desc = dict(cfg, box=[box['lo'], box['hi']], tight=tight, cons=cons, pen=pen, steps=steps, sampled_init=sampled)
+    if sampled: obs.event('sampled_from_a_distribution')
     nperm = 6
     far = False
     for _ in range(nperm):
@@ -200,15 +209,21 @@ def run_de2_maps(rng, obs):
     box = K.gen_box(rng, dim, None, shape='finite') if rng.random() < 0.5 else None
     cons = K.gen_constraint(rng, dim, box) if rng.random() < 0.4 else None
     gens = rng.randint(3, 7)
+    sampled = rng.random() < 0.25         # initial population drawn from a mystic Distribution built after seeding
     evalmon = rng.random() < 0.5          # with an evaluation monitor DE2 counts through the monitor where it can, else from the map results
-    obs.desc = {'solver': 'de2', 'dim': dim, 'NP': NP, 'strategy': strat, 'cost': spec, 'box': box, 'cons': cons, 'generations': gens, 'evalmon': evalmon}
+    obs.desc = {'solver': 'de2', 'dim': dim, 'NP': NP, 'strategy': strat, 'cost': spec, 'box': box, 'cons': cons, 'generations': gens, 'evalmon': evalmon, 'sampled_init': sampled}
+    if sampled: obs.event('sampled_from_a_distribution')
     import mystic.strategy as ST
     def cost(x):                    # plain module-level-free function: must work in forked children and threads
         return raw([float(v) for v in x])
     def run(mapname, zoo, swap_at=None):
         random.seed(obs.seed); np.random.seed(obs.seed % (2 ** 32))
         s = DifferentialEvolutionSolver2(dim, NP)
-        s.SetRandomInitialPoints([-3.0] * dim, [3.0] * dim)
+        if sampled:
+            from mystic.math import Distribution
+            s.SetSampledInitialPoints(Distribution('numpy.random.normal', 0.0, 2.0))
+        else:
+            s.SetRandomInitialPoints([-3.0] * dim, [3.0] * dim)
         if box: s.SetStrictRanges(list(box['lo']), list(box['hi']))
         if cons: s.SetConstraints(K.make_constraint(cons))
         s.SetEvaluationLimits(10 ** 6, 10 ** 8); s.SetTermination(ChangeOverGeneration(-1.0, 10 ** 6))
@@ -282,7 +297,9 @@ def run_ensemble_maps(rng, obs):
         j = rng.randrange(dim); box = dict(box, lo=list(box['lo']), hi=list(box['hi']))
         c = spec[1][j] if len(spec) > 1 and isinstance(spec[1], list) and len(spec[1]) > j and isinstance(spec[1][j], (int, float)) else 1.0
         box['hi'][j] = c - rng.choice([0.0, 0.5]); box['lo'][j] = box['hi'][j] - 4.0
-    obs.desc.update(monitors=mons, restart=restart, nested_instance=instance, box=box)
+    dist = rng.choice([None, None, 'normal', 'uniform'])      # members' starting points randomised by a user-supplied Distribution (built after seeding)
+    obs.desc.update(monitors=mons, restart=restart, nested_instance=instance, box=box, dist=dist)
+    if dist: obs.event('sampled_from_a_distribution')
     def cost(x):
         return raw([float(v) for v in x])
     def run(mapname, zoo, step=False):
@@ -303,6 +320,14 @@ def run_ensemble_maps(rng, obs):
             s.SetNestedSolver(cls_)
         s.SetStrictRanges(list(box['lo']), list(box['hi']))
         s.SetEvaluationLimits(maxiter, 4000)
+        if dist:
+            from mystic.math import Distribution
+            w = max(h - l for l, h in zip(box['lo'], box['hi']))
+            if which == 'lattice':     # lattice: noise added to the cell centres
+                s.SetDistribution(Distribution('numpy.random.normal', 0.0, 0.05 * w) if dist == 'normal' else Distribution('numpy.random.uniform', -0.1 * w, 0.1 * w))
+            else:                      # buckshot: the points themselves are drawn from it (redrawn until inside the ranges)
+                s.SetDistribution(Distribution('numpy.random.normal', 0.5 * (min(box['lo']) + max(box['hi'])), w) if dist == 'normal' else
+                                  Distribution('numpy.random.uniform', min(box['lo']) - 0.5 * w, max(box['hi']) + 0.5 * w))
         if mapname != 'default': s.SetMapper(getattr(zoo, mapname))
         if mons in ('both', 'stepmon'): s.SetGenerationMonitor(Monitor())
         if mons in ('both', 'evalmon'): s.SetEvaluationMonitor(Monitor())
